@@ -36,8 +36,6 @@ import time
 
 from harness.core import Check, Machinery, VERIF
 
-MODES = ("list", "dict", "generator", "generator_unordered")
-
 
 # --------------------------------------------------------------------------- the jobs
 def g(x):
@@ -356,12 +354,12 @@ def run(ck: Check):
     pp = os.environ.get("PYTHONPATH", "")
     if VERIF not in pp.split(os.pathsep):
         os.environ["PYTHONPATH"] = (pp + os.pathsep if pp else "") + VERIF
-    ck.rule = ("cases = behaviours of spec/ParallelRunner.tla printed by TLC (all for n<=5,w<=5; -simulate for "
+    ck.rule = ("cases = behaviours of spec/ParallelRunner.tla printed by TLC (all for n<=%d,w<=%d; -simulate for "
                "n<=64,w<=16) and random sleep-rank vectors; each is run through the real parallel() on the loky "
                "and threading backends as list/dict/generator/generator_unordered call; returned value compared "
                "with TLC's and the recorded execution validated by Trace_ParallelRunner. Non-trivial = at least "
                "two jobs and the jobs actually completed out of job order; distinct by (variant, backend, n, "
-               "observed completion order).")
+               "observed completion order)." % ((5, 5) if thorough else (4, 4)))
     ck.trusted += ["checks/c32.py: job() (barrier/sleep + flock'ed sequence log), project() (return value -> ret)",
                    "joblib backends (loky, threading) selected with joblib.parallel_config"]
     ck.assumptions += ["job functions are picklable module-level functions called through joblib.delayed, as "
@@ -385,7 +383,7 @@ def run(ck: Check):
 
     # ---- binding B: generators
     exh = _gen(ck, "MC_ParallelRunner_exh.cfg" if thorough else "MC_ParallelRunner_exh4.cfg", workers=8)
-    nsim = 1000 if thorough else 120
+    nsim = 1000 if thorough else 90
     # one long random behaviour = many runs back to back (about 100 steps per run)
     sim = _gen(ck, "MC_ParallelRunner_sim.cfg", simulate="num=1", depth=100 * nsim, seed=ck.seed, workers=1)
     _t(ck, "generators done: %d exhaustive, %d simulated schedules with sleep ranks" % (len(exh), len(sim)))
@@ -475,8 +473,9 @@ def run(ck: Check):
         s["w"] = sorted(s["w"])
     ck.extra["backends"] = book.stats
     ck.extra["traces_accepted_by_TLC"] = len(accepted)
-    ck.extra["exhaustive_parts"] = ["all completion orders feasible with in-order dispatch for n<=%d, w<=5, "
-                                    "4 variants (threading backend, imposed by barriers)" % (5 if thorough else 4)]
+    ck.extra["exhaustive_parts"] = ["all completion orders feasible with in-order dispatch for n<=%d, w<=%d, "
+                                    "4 variants (threading backend, imposed by barriers)"
+                                    % ((5, 5) if thorough else (4, 4))]
     ck.extra["not_covered"] = ("schedule hook inside joblib (no hook in /repo); Apalache inductive run; on loky "
                                "the dict variant runs with <= 4 workers in the quick tier and with 1,2,3,4,8,16 "
                                "workers in the thorough tier (all 1..16 on the threading backend); pools larger "
